@@ -27,23 +27,25 @@ def Pather.Pather_Paths : List Row := [
   (1, "return append(make([]snet.Path, 0, len(paths)), paths...)")  -- Multipath.pathsCopy: m ++ [m.getD table []] at address m.length (new array); pin C15Pather_pin_copy; seeded C15-8
   ]
 
-/-- net/scion, update -/
+/-- net/scion, update (with the repair: a repeated destination IA is looked up once) -/
 def Pather.update : List Row := [
-  (0, "func update(ctx context.Context, p *Pather, dc daemon.Connector, dstIAs []addr.IA)"),  -- UNMODELLED: the table refresh has no model (Multipath.refclkHistory keeps the table fixed); harness bypasses it
-  (1, "localIA, err := dc.LocalIA(ctx)"),  -- env: SCION daemon gRPC call (LocalIA); its result is the localIA stored in row 12
-  (1, "if err != nil"),  -- UNMODELLED: daemon LocalIA failure aborts the whole refresh (only logged); no model of this error path
-  (2, "return"),  -- UNMODELLED: early return keeps the previous table and localIA (stale paths stay offered; nil table if first update)
-  (1, "paths := map[addr.IA][]snet.Path{}"),  -- UNMODELLED: every refresh builds the table from empty: nothing is carried over from the previous table; no model
-  (1, "for _, dstIA := range dstIAs"),  -- UNMODELLED: one daemon lookup and one table entry per configured destination IA; models have one table
-  (2, "if dstIA.IsWildcard()"),  -- UNMODELLED: wildcard check on the configured destination IAs; no model or MainCfg rule mirrors it
-  (3, "panic(\"unexpected destination IA: wildcard.\")"),  -- UNMODELLED: panic for a wildcard destination IA (at start-up, or later in the refresh goroutine); no model
-  (2, "ps, err := dc.Paths(ctx, dstIA, localIA, daemon.PathReqFlags{Refresh: true})"),  -- env: SCION daemon gRPC call (Paths, Refresh: true); result = table content, input Mem of Multipath.refclkRound
-  (2, "if err != nil"),  -- UNMODELLED: failed lookup is only logged, falls through with ps = nil: the entry becomes empty, old paths dropped
-  (2, "paths[dstIA] = append(paths[dstIA], ps...)"),  -- UNMODELLED: entry := entry ++ daemon's list (a destination listed twice gets its paths twice); order = daemon order
-  (1, "p.mu.Lock()"),  -- UNMODELLED: no lock-discipline fact or model for Pather.mu (writer side, refresh goroutine)
-  (1, "p.localIA = localIA"),  -- UNMODELLED: p.localIA := localIA; no model has this field
-  (1, "p.paths = paths"),  -- UNMODELLED: table replaced wholesale by new arrays (slices handed out earlier stay intact); no refresh step in model
-  (1, "p.mu.Unlock()")  -- UNMODELLED: no lock-discipline fact or model for Pather.mu (explicit unlock, no defer)
+  (0, "func update(ctx context.Context, p *Pather, dc daemon.Connector, dstIAs []addr.IA)"),  -- Pather.update dedup t d dsts (Model/Pather.lean); harness c15 ops pd.start / pd.refresh (real function behind a stand-in gRPC daemon)
+  (1, "localIA, err := dc.LocalIA(ctx)"),  -- env: SCION daemon gRPC call (LocalIA) = Daemon.localIA (none = error)
+  (1, "if err != nil"),  -- Pather.update: match d.localIA with | none
+  (2, "return"),  -- Pather.update: .done t — table and local IA unchanged (C15Upd_lookup_error_keeps_table)
+  (1, "paths := map[addr.IA][]snet.Path{}"),  -- Pather.update: fill starts from [] — nothing carried over (C15Upd_history_last_installed)
+  (1, "for _, dstIA := range dstIAs"),  -- Pather.fill: recursion over the configured destination list
+  (2, "if dstIA.IsWildcard()"),  -- Pather.fill: isWildcard ia
+  (3, "panic(\"unexpected destination IA: wildcard.\")"),  -- Pather.fill = none → UpdRes.panicWildcard (C15Upd_wildcard_panics, _can_be_late)
+  (2, "if _, ok := paths[dstIA]; ok"),  -- Pather.fill: dedup && (m.get? ia).isSome  (the repair; `dedup = false` is the code as found)
+  (3, "continue"),  -- Pather.fill: fill dedup d m rest
+  (2, "ps, err := dc.Paths(ctx, dstIA, localIA, daemon.PathReqFlags{Refresh: true})"),  -- env: SCION daemon gRPC call (Paths, Refresh: true) = Daemon.paths ia
+  (2, "if err != nil"),  -- Pather.fill: (d.paths ia).getD [] — a failed lookup is logged and contributes the empty list (C15Upd_lookup_error_empties_offer)
+  (2, "paths[dstIA] = append(paths[dstIA], ps...)"),  -- Pather.fill: m.appendAt ia …  (PathMap.appendAt)
+  (1, "p.mu.Lock()"),  -- lock discipline: fact Gen.Scion.Pather_lock_discipline, pinned by C15Upd_pin_lock_discipline (every access to p.paths / p.localIA in pather.go sits between Lock and Unlock)
+  (1, "p.localIA = localIA"),  -- Pather.update: { localIA := l, … }
+  (1, "p.paths = paths"),  -- Pather.update: { …, paths := some m } — the table is replaced wholesale (slices handed out earlier stay intact)
+  (1, "p.mu.Unlock()")  -- lock discipline: see row p.mu.Lock()
   ]
 
 /-- net/scion, StartPather -/
@@ -51,12 +53,12 @@ def Pather.StartPather : List Row := [
   (0, "func StartPather(ctx context.Context, log *slog.Logger, daemonAddr string, dstIAs []addr.IA) *Pather"),  -- UNMODELLED: Pather construction and refresh goroutine; MainCfg has only the flag pather : Bool; harness uses a hook
   (1, "p := &Pather{log: log}"),  -- env: allocation; the initial nil table reads as [] in Multipath.pathsCopy (getD default), i.e. Paths returns nil
   (1, "dc := NewDaemonConnector(ctx, daemonAddr)"),  -- env: SCION daemon gRPC connector set-up
-  (1, "update(ctx, p, dc, dstIAs)"),  -- UNMODELLED: synchronous first refresh before the Pather is returned; its failure is silent (update rows 2-3)
+  (1, "update(ctx, p, dc, dstIAs)"),  -- Pather.run: first element of the history, in the caller's goroutine (harness c15 pd.start via=start runs StartPather itself)
   (1, "go func(ctx context.Context, p *Pather, dc daemon.Connector, dstIAs []addr.IA) {…}(ctx, p, dc, dstIAs)"),  -- UNMODELLED: refresh goroutine, started unconditionally, never stopped (ctx passed on, not consulted); no model
   (2, "func literal 1"),  -- UNMODELLED: body of the refresh goroutine; runs update concurrently with Pather.Paths callers; no model
   (3, "ticker := time.NewTicker(pathRefreshPeriod)"),  -- UNMODELLED: refresh period pathRefreshPeriod = 15 s; the constant is in no model or pin; ticker never stopped
   (3, "for range ticker.C"),  -- UNMODELLED: endless loop over the ticker channel (ticks dropped while an update is still running); no model
-  (4, "update(ctx, p, dc, dstIAs)"),  -- UNMODELLED: periodic replacement of the table between rounds; Multipath.refclkHistory keeps the table fixed
+  (4, "update(ctx, p, dc, dstIAs)"),  -- Pather.run: one update per tick on the table the previous one left (C15Upd_history_last_installed); executed once per run on a real ticker (harness c15, the Pather left alone for one period)
   (1, "return p")  -- env: plumbing: the pointer is stored in the SCION reference clocks by timeservice.go (MainCfg field pather)
   ]
 
